@@ -325,5 +325,7 @@ class Machine:
                 return ("opaque",)
             raise Unsupported("call of " + fn[0])
         if cb is not None:
-            raise Unsupported("call of local " + cb.qual)
+            # any other local helper (e.g. a function shared by register and reregister) is
+            # executed symbolically as well
+            return self.run(cb, {i + 1: a for i, a in enumerate(args)})
         return ("opaque",)
